@@ -412,6 +412,61 @@ fn roundtrip_records(rep: &mut Report, g: &SlateGen, rng: &mut Rng, st: &mut Fie
 			Err((loc, m)) => rep.violation(&format!("C08|record-slatepack|panic@{}", loc), &m, json!({"payload_len": sp.payload.len()})),
 		}
 	}
+	// Slatepack struct, encrypted: payload, sender (present/absent) and the recipient list kept in the
+	// encrypted metadata (0-3 entries) must come back through every form after decryption
+	{
+		rep.eval();
+		let mut sp = Slatepack::default();
+		let pl = 1 + rng.usize(300);
+		sp.payload = rng.bytes(pl);
+		sp.sender = if rng.bool() { Some(g.address(rng).1) } else { None };
+		let n_meta = rng.usize(4);
+		for _ in 0..n_meta {
+			sp.add_recipient(g.address(rng).1);
+		}
+		let (sk_bytes, to) = g.address(rng);
+		let plain = sp.clone();
+		let case = json!({"payload_len": pl, "sender": plain.sender.is_some(), "recipients_in_metadata": n_meta});
+		let r = catch(|| {
+			let mut enc = sp.clone();
+			enc.try_encrypt_payload(vec![to.clone()]).map_err(|e| format!("encrypt: {:?}", e))?;
+			let sk = ed25519_dalek::SecretKey::from_bytes(&sk_bytes).map_err(|e| format!("{}", e))?;
+			let mut outs: Vec<(&str, Slatepack)> = vec![];
+			let b = byte_ser::to_bytes(&SlatepackBin(enc.clone())).map_err(|e| format!("bin ser: {}", e))?;
+			let d: SlatepackBin = byte_ser::from_bytes(&b).map_err(|e| format!("bin de: {}", e))?;
+			outs.push(("binary", d.0));
+			let j = serde_json::to_string(&enc).map_err(|e| format!("json ser: {}", e))?;
+			let e: Slatepack = serde_json::from_str(&j).map_err(|e| format!("json de: {}", e))?;
+			outs.push(("json", e));
+			let arm = SlatepackArmor::encode(&enc).map_err(|e| format!("armor: {:?}", e))?;
+			let raw = SlatepackArmor::decode(arm.as_bytes()).map_err(|e| format!("dearmor: {:?}", e))?;
+			let f: SlatepackBin = byte_ser::from_bytes(&raw).map_err(|e| format!("armor bin de: {}", e))?;
+			outs.push(("armored", f.0));
+			let mut res = vec![];
+			for (form, mut o) in outs {
+				o.try_decrypt_payload(Some(&sk)).map_err(|e| format!("{}: decrypt: {:?}", form, e))?;
+				res.push((form, o));
+			}
+			Ok::<_, String>(res)
+		});
+		match r {
+			Ok(Ok(res)) => {
+				let mut ok = true;
+				for (form, o) in res {
+					if o.payload != plain.payload || o.sender != plain.sender || o.recipients() != plain.recipients() {
+						ok = false;
+						rep.violation(&format!("C08|record-slatepack-encrypted|{}", form), &format!("an encrypted Slatepack does not come back through its {} form: payload equal {}, sender equal {}, recipients {} vs {}", form, o.payload == plain.payload, o.sender == plain.sender, o.recipients().len(), plain.recipients().len()), case.clone());
+					}
+				}
+				if ok {
+					st.hit("record:slatepack-encrypted");
+					rep.distinct(&("sp-enc", plain.sender.is_some(), n_meta));
+				}
+			}
+			Ok(Err(e)) => rep.violation(&format!("C08|record-slatepack-encrypted|refused|sender={}|meta-recipients={}", plain.sender.is_some(), std::cmp::min(n_meta, 1)), &e, case.clone()),
+			Err((loc, m)) => rep.violation(&format!("C08|record-slatepack-encrypted|panic@{}", loc), &m, case.clone()),
+		}
+	}
 }
 
 pub fn run(a: &Args) {
